@@ -181,6 +181,7 @@ PROPS["C11"] = dict(
         S("host-asan", "func", ["--fam", ALLFAM, "--policy", "win"], (1500, 400), (30000, 1500)),
         S("mid-debug-asan", "func", ["--fam", ALLFAM, "--policy", "win"], (2000, 300), (40000, 900)),
         S("odd-asan", "func", ["--fam", ALLFAM, "--policy", "win"], (2000, 450), (40000, 1000)),
+        S("host-clang-asan", "func", ["--fam", ALLFAM, "--policy", "win"], (3000, 300), (60000, 1200)),
         S("small-gomp-asan", "func", ["--fam", "mul,ech", "--policy", "win"], (500, 300), (10000, 700), env={"OMP_NUM_THREADS": "4"}),
         S("small-asan", "illdim", [], (840, 150), (8400, 300)),
         S("small-gomp-asan", "illdim", [], (460, 150), (4600, 300), env={"OMP_NUM_THREADS": "2"}),
@@ -199,13 +200,16 @@ PROPS["C12"] = dict(
          "parameter choices, and each build's result equals the model (names the culprit); distinct = (op class, set of regimes the builds were in); "
          "non-trivial = the same input is in different regimes in at least two builds",
     assumptions=MODEL + ["factors P,L,U,Q, kernel bases and solutions of singular systems are not unique and deliberately not digested",
-                         "cache triples sampled: 4K:32K:64K, 6K:48K:96K (derived constants not powers of two), 16K:256K:1M, 32K:1280K:54M"],
+                         "cache triples sampled: 4K:32K:64K, 6K:48K:96K (derived constants not powers of two), 16K:256K:1M, 32K:1280K:54M",
+                         "two compilers / optimisation levels (gcc -O1/-O2/-O3, clang-14 -O2) are part of the build matrix so that code whose result depends on undefined behaviour shows up as a digest mismatch"],
     stages=lambda tier: [
         _c12("small-asan", (1500, 420), (12000, 1200)),
         _c12("host-asan", (1500, 420), (12000, 1200)),
         _c12("small-nosse-ts-asan", (1500, 420), (12000, 1200)),
         _c12("host-gomp-asan", (1500, 420), (12000, 1200), env={"OMP_NUM_THREADS": "4"}),
         _c12("odd-asan", (1500, 420), (12000, 1200)),
+        _c12("small-O3-plain", (1500, 420), (12000, 1200)),
+        _c12("host-clang-asan", (1500, 420), (12000, 1200)),
     ] + ([
         _c12("mid-debug-asan", (0, 420), (12000, 1200)),
         _c12("host-nosse-plain", (0, 420), (12000, 1200)),
